@@ -83,6 +83,13 @@ pub fn rat_to_f64(s: &str) -> Option<f64> {
     if s == "_" || s.is_empty() {
         return None;
     }
+    // the two infinities (order-only request streams; the model reads them as +-2^1100)
+    if s == "inf" {
+        return Some(f64::INFINITY);
+    }
+    if s == "-inf" {
+        return Some(f64::NEG_INFINITY);
+    }
     match s.split_once('/') {
         None => Some(big_to_f64(s)),
         Some((p, q)) => Some(big_ratio(p, q)),
